@@ -404,6 +404,10 @@ STANDINS = {
                       'to_string on 0..100000 and 2^k-1,2^k,2^k+1; to_lowercase on all 2-char ASCII strings without upper case; '
                       'RRQ/WRQ/OACK/ERROR from a grammar (10 strings incl. empty, non-ASCII, 517 bytes; 8 option values incl. usize::MAX; '
                       'lists of 0..3 options) against an independent RFC encoder plus round trip (about 2.8 million cases)'}],
+    'C12': [{'name': 'listener', 'bin': 'listener', 'extract': False, 'confirm': True, 'args': {'quick': ['C12'], 'thorough': ['C12']},
+             'assumed_contract': 'interleavings of several endpoints and what the listener does with an endpoint over time are outside the per-datagram routing contract',
+             'bound': '16 real server configurations on loopback: two interleaved downloads from two endpoints each yield their own file; an endpoint that completed a transfer '
+                      'asks again and is served; DATA/ACK/OACK/ERROR from an endpoint that owns no transfer are answered with ERROR 4'}],
     'C18': [{'name': 'bounded_window', 'bin': 'bounded_window', 'extract': False,
              'assumed_contract': 'none assumed: every Window operation is under contract; this executes the real Window against an executable twin of the specification so that a change '
                                  'that makes the annotations inapplicable still meets a concrete check',
@@ -421,6 +425,22 @@ STANDINS = {
                       'boundaries x {multi-port, single-port}; nested and Windows-style request path; refusals (missing file, existing file, read-only); thorough: one download of '
                       '65538 blocks with windowsize 64 (about 200 cases)'}],
 }
+
+
+for _p in ('C01', 'C02', 'C04', 'C07', 'C08', 'C13', 'C15', 'C16'):
+    STANDINS.setdefault(_p, []).append(
+        {'name': 'scenarios', 'bin': 'scenarios', 'extract': False, 'args': {'quick': [_p, '--quick'], 'thorough': [_p]},
+         'assumed_contract': 'none assumed: the transfer loops are under contract; scripted RFC 7440 peers (in-memory sockets) run against the real Worker with executable twins of the '
+                             'specification predicates, so that a change that makes the annotations inapplicable still meets a concrete check',
+         'bound': 'file lengths around block/window boundaries x windowsize 1..4 x repeat {1,3} x every single fault (lost / duplicated / stale / swapped datagram at each position); '
+                  'transfers of more than 65536 blocks with a fault at the wrap; window sizes 32769 and 65535; 8 and 255 copies per datagram; uploads onto a longer existing file; '
+                  'aborted uploads at every point (quick tier: a subset)'})
+for _p in ('C03', 'C05', 'C06', 'C09'):
+    STANDINS.setdefault(_p, []).append(
+        {'name': 'listener', 'bin': 'listener', 'extract': False, 'confirm': True, 'tiers': ('thorough',), 'args': {'quick': [_p], 'thorough': [_p]},
+         'assumed_contract': 'none assumed: one listener iteration is under contract; real servers on loopback answer a request catalogue (thorough tier)',
+         'bound': '16 server configurations (directories shared/distinct, trailing separator, read-only, overwrite, single-port) x escape names, absolute paths, missing / existing files, '
+                  'option negotiation incl. unhonourable and truncating values, about 250 hostile datagrams each followed by a valid request'})
 
 
 def replay_dir():
@@ -448,6 +468,8 @@ def run_standins(pid, tier='quick'):
     rdir = replay_dir()
     env = dict(os.environ, CARGO_NET_OFFLINE='true', VERIF_REPLAY_OUT=rdir)
     for x in STANDINS.get(pid, []):
+        if tier not in x.get('tiers', ('quick', 'thorough')):
+            continue
         t0 = time.time()
         if x['extract']:
             e = subprocess.run([sys.executable, os.path.join(HERE, 'extract.py')], env=env, stdout=subprocess.PIPE, stderr=subprocess.STDOUT, text=True)
@@ -459,22 +481,22 @@ def run_standins(pid, tier='quick'):
         out = p.stdout.strip().split('\n')
         if p.returncode == 1 and x.get('confirm'):
             # a stand-in that uses real sockets and timers: a counterexample counts only if it is reproduced
-            first = [l for l in out if l.startswith('COUNTEREXAMPLE')][:1]
+            first = [l for l in out if l.startswith(('COUNTEREXAMPLE', 'WITNESS'))][:1]
             p2 = subprocess.run(cmd, cwd=rdir, env=env, stdout=subprocess.PIPE, stderr=subprocess.STDOUT, text=True)
             out2 = p2.stdout.strip().split('\n')
             norm = lambda ls: [re.sub(r'/\S+', '<path>', l) for l in ls]
-            if p2.returncode != 1 or norm([l for l in out2 if l.startswith('COUNTEREXAMPLE')][:1]) != norm(first):
+            if p2.returncode != 1 or norm([l for l in out2 if l.startswith(('COUNTEREXAMPLE', 'WITNESS'))][:1]) != norm(first):
                 res.append({'name': x['name'], 'label': 'BOUNDED (not a proof)', 'bound': x['bound'], 'exit': p2.returncode,
                             'error': 'a counterexample was printed once but not reproduced on a second run (timing): ignored: %s' % (first[0][:200] if first else '')})
                 continue
         d = {'name': x['name'], 'label': 'BOUNDED (not a proof)', 'assumed_contract': x['assumed_contract'], 'bound': x['bound'],
              'result': out[-1][:300] if out else '', 'wall_s': round(time.time() - t0, 2), 'exit': p.returncode}
-        m = re.search(r'cases=(\d+)', out[-1] if out else '')
+        m = re.search(r'(?:cases|runs|servers)=(\d+)', out[-1] if out else '')
         if m:
             d['cases'] = int(m.group(1))
         res.append(d)
-        if p.returncode == 1 and any(l.startswith('COUNTEREXAMPLE') for l in out):
-            cex.append((x, '\n'.join(out[-8:])))
+        if p.returncode == 1 and any(l.startswith(('COUNTEREXAMPLE', 'WITNESS')) for l in out):
+            cex.append((x, '\n'.join([l for l in out if l.startswith(('COUNTEREXAMPLE', 'WITNESS'))][:3] + out[-2:])))
         elif p.returncode != 0:
             d['error'] = 'stand-in did not run (exit %d): %s' % (p.returncode, ' | '.join(out[-3:])[:300])
     return res, cex
@@ -730,7 +752,7 @@ def find_witness(pid, tier):
         p = subprocess.run(args, cwd=replay_dir(), env=dict(os.environ, CARGO_NET_OFFLINE='true'),
                            stdout=subprocess.PIPE, stderr=subprocess.DEVNULL, text=True)
         _witness_cache[key] = [l for l in p.stdout.split('\n') if l.startswith('WITNESS')]
-        if p.returncode not in (0, 1) and pid in LISTENER_PROPS:
+        if (p.returncode >= 128 or p.returncode < 0) and pid in LISTENER_PROPS:
             # the harness hosts the servers in its own process: an abort (failed allocation) or a panic of the listener thread
             # that takes the process down is a C05 witness; the last PROBE line names the datagram
             probes = [l for l in p.stdout.split('\n') if l.startswith('PROBE ')]
